@@ -391,9 +391,30 @@ func (c *Ctx) jcsRules() {
 			c.Check("C05.P1", "ordering-reads-only-sort-keys", okOnlyKeys, cmpFn.Pos(), fmt.Sprintf("the ordering function indexes only the two UTF-16 sort keys %v", bad))
 			// code-unit difference: precedes on diff < 0, stops on diff > 0
 			okDiff := false
+			precedesOnTrue := func(lt *ssa.BinOp) {
+				for _, e := range boolEdges(lt, true) {
+					if ret, isR := e.to.Instrs[len(e.to.Instrs)-1].(*ssa.Return); isR && c.Path(ret.Results[0], nil) == "true" {
+						okDiff = true
+					}
+				}
+			}
 			forEachInstr(cmpFn, func(in ssa.Instruction) {
 				bo, ok := in.(*ssa.BinOp)
-				if !ok || bo.Op != token.SUB {
+				if !ok {
+					return
+				}
+				// the two code units compared directly: new[q] < old[q] (or old[q] > new[q])
+				isNew := func(v ssa.Value) bool { return c.Path(v, nil) == "$0[ι]" }
+				isOld := func(v ssa.Value) bool { return strings.HasSuffix(c.Path(v, nil), ".sortKey[ι]") }
+				if (bo.Op == token.LSS && isNew(bo.X) && isOld(bo.Y)) || (bo.Op == token.GTR && isOld(bo.X) && isNew(bo.Y)) {
+					precedesOnTrue(bo)
+					return
+				}
+				if bo.Op != token.SUB {
+					return
+				}
+				// the difference form needs a signed difference (an unsigned one is never negative)
+				if bt, isB := bo.Type().Underlying().(*types.Basic); !isB || bt.Info()&types.IsUnsigned != 0 {
 					return
 				}
 				if strings.Contains(c.Path(bo.X, nil), "$0[ι]") && strings.Contains(c.Path(bo.Y, nil), ".sortKey[ι]") {
@@ -575,7 +596,11 @@ func (c *Ctx) jcsRules() {
 	// ---- K3
 	{
 		okWS := false
-		for _, f := range cls {
+		// the predicate may be a function literal of Transform or a function of its own that Transform's code calls
+		for _, f := range c.reachableModuleFuncs([]*ssa.Function{tr}) {
+			if pkgPathOf(f) != pkgPathOf(tr) {
+				continue
+			}
 			if f.Signature.Params().Len() != 1 || f.Signature.Results().Len() != 1 || !isBoolType(f.Signature.Results().At(0).Type()) || types.TypeString(f.Signature.Params().At(0).Type(), nil) != "byte" {
 				continue
 			}
